@@ -265,6 +265,21 @@ def run_case(case, ctx):
             ctx.violation(f'{fname}|axis={axis}|shape-or-labels', **info, got=repr(res))
             continue
         rc = columns_of(res)
+        # second, independent oracle for plain numeric data (the per-Series call shares the front-end with the Frame): NumPy's cumulative function on the values;
+        # with skipna a missing cell counts as the neutral element, without it every later cell of that column / row is missing too
+        if set(kinds) <= {'int', 'int8', 'intwide', 'float', 'floatnan'} and nrows >= 1:
+            npf = {('cumsum', True): np.nancumsum, ('cumsum', False): np.cumsum, ('cumprod', True): np.nancumprod, ('cumprod', False): np.cumprod}[(fname, skipna)]
+            badp = None
+            for p, part in enumerate(parts):
+                with np.errstate(all='ignore'):
+                    nvp = npf(np.asarray(part.values, dtype=float))
+                gotp = [rc[p][i] for i in range(nrows)] if axis == 0 else [rc[j][p] for j in range(ncols)]
+                if not all(close(g, x) for g, x in zip(gotp, nvp.tolist())):
+                    badp = (p, gotp, nvp.tolist())
+                    break
+            if badp:
+                ctx.violation(f'{fname}|axis={axis}|skipna={skipna}|differs-from-numpy-on-values|{fl}', **info, part=badp[0], got=[norm(x) for x in badp[1]], expected=[norm(x) for x in badp[2]])
+                continue
         for p, e in enumerate(exp):
             gotp = [rc[p][i] for i in range(nrows)] if axis == 0 else [rc[j][p] for j in range(ncols)]
             if not all(close(g, x) for g, x in zip(gotp, list(e[1].values))):
